@@ -403,4 +403,47 @@ theorem p_set_option (c : Config) (st : St) (ho : st.opts = c.options) (hr : c.o
       u32_sint32 _ (Nat.or_lt_two_pow (n := 32) hr hku)
     simp [hz, storeLV, Config.setOption, ho, hor]
 
+/-! ### the child list -/
+
+theorem p_length (n : Node) (st : St) (h : RepKids n st) :
+    exec src_config_setting_length.body st = retI n.length st := by
+  obtain ⟨hty, htr, hk, hkt, hl⟩ := h
+  simp only [src_config_setting_length, exec, eval, loadLV, evalCast, evalUn, wrapTy, hty]
+  by_cases ha : isAggregateTy n.ty = true
+  · rcases hk with hk | ⟨hk, he⟩
+    · have hw : wrap32 (n.kids.length : Int) = n.kids.length := wrap32_fits _ (by omega) (by omega)
+      have hm : ((n.kids.length : Int) % 4294967296) = n.kids.length := by omega
+      simp [ha, hk, b2i, Node.length, Node.isAggregate, hw, hm, retI]
+    · simp [ha, hk, he, b2i, Node.length, Node.isAggregate, retI]
+  · simp [ha, b2i, Node.length, Node.isAggregate, retI]
+
+theorem p_list_checktype (n : Node) (st : St) (h : RepKids n st) (t : Nat) (ht : t < 2147483648)
+    (harg : st.vars 1 = .i t) :
+    exec src_config_list_checktype.body st = retI (if checkType n t then 1 else 0) st := by
+  obtain ⟨hty, htr, hk, hkt, hl⟩ := h
+  have hw : wrap32 (st.sty : Int) = (n.ty : Int) := by rw [hty]; exact wrap32_small _ htr
+  simp only [src_config_list_checktype, exec, eval, loadLV, evalCast, evalUn, evalBin, wrapTy, hw, harg]
+  rcases hk with hk | ⟨hk, he⟩
+  · cases hkids : n.kids with
+    | nil => simp [hk, hkids, b2i, checkType, retI]
+    | cons k ks =>
+      have hkty : k.ty < 65536 := hkt k (by simp [hkids])
+      have hw2 : wrap32 (k.ty : Int) = (k.ty : Int) := wrap32_small _ hkty
+      have hlen : ¬ (((ks.length + 1 : Nat) : Int) % 4294967296 = 0) := by
+        have : (ks.length + 1) < 2147483648 := by simpa [hkids] using hl
+        omega
+      have hne : ¬ ((ks.length : Int) + 1 = 0) := by omega
+      have hk' : st.kids = some (k.ty :: ks.map (·.ty)) := by simpa [hkids] using hk
+      by_cases h8 : n.ty = 8
+      · have h8' : (n.ty : Int) = 8 := by omega
+        simp [hk', hkids, b2i, checkType, retI, h8, h8', T_LIST, hne, hw]
+      · have h8' : ¬ ((n.ty : Int) = 8) := by omega
+        by_cases he : k.ty = t
+        · have he' : (k.ty : Int) = (t : Int) := by omega
+          have hwt : wrap32 (t : Int) = (t : Int) := wrap32_fits _ (by omega) (by omega)
+          simp [hwt, hk', hkids, b2i, checkType, retI, h8, h8', T_LIST, hw2, hne, hw, harg, he, he']
+        · have he' : ¬ ((k.ty : Int) = (t : Int)) := by omega
+          simp [hk', hkids, b2i, checkType, retI, h8, h8', T_LIST, hw2, hne, hw, harg, he, he']
+  · simp [hk, he, b2i, checkType, retI]
+
 end Libconfig.CSrc
